@@ -127,9 +127,9 @@ def confEntry (ct : ClassTable) : List (KeyKind × Spec × Spec) → V → V →
     else confEntry ct es key val
 end
 
-/-- every `Optional(k, default=d)` in the pattern has a plain value as default (a T expression
-    as default can fail to evaluate: the match then ends in its PathAccessError although the
-    target conforms) -/
+/- every `Optional(k, default=d)` in the pattern has a plain value as default (a T expression
+   as default can fail to evaluate: the match then ends in its PathAccessError although the
+   target conforms) -/
 mutual
 def constDefaults : Spec → Bool
   | .and cs _ | .or cs _ | .list cs | .set cs | .fset cs | .tuple cs => constDefaultsL cs
@@ -220,7 +220,7 @@ def expectedPrecedence : List (String × String) :=
   [("type(match) in (Required, Optional)", "match = match.key"),
    ("type(match) in (tuple, frozenset)",
     "if not match:     return 0; return max([_precedence(item) for item in match])"),
-   ("isinstance(match, type)", "return 2"), ("hasattr(match, 'glomit')", "return 1"),
+   ("isinstance(match, type)", "return 2"), ("hasattr(match, 'glomit') or callable(match)", "return 1"),
    ("else", "return 0")]
 
 /-- * `_glom_match` tests type → dict → list/set/frozenset → tuple → callable → `!=`, so a
